@@ -40,6 +40,13 @@ func tsPool() []tsItem {
 		{"ns-earlier", base.Add(-time.Nanosecond), base.Add(-2 * time.Nanosecond)},
 		{"far-future", base.AddDate(100, 0, 0), base},
 		{"far-past-zone", time.Date(1970, 1, 1, 0, 0, 0, 0, plus2), time.Time{}},
+		// instants outside the range a 64-bit nanosecond (1678-2262) or second counter can hold comfortably
+		{"year-1700", time.Date(1700, 3, 1, 0, 0, 0, 0, time.UTC), time.Time{}},
+		{"year-1500-upd", time.Time{}, time.Date(1500, 1, 1, 0, 0, 0, 0, time.UTC)},
+		{"year-2300", time.Date(2300, 1, 1, 0, 0, 0, 0, time.UTC), base},
+		{"year-9999", base, time.Date(9999, 12, 31, 23, 59, 59, 999999999, time.UTC)},
+		{"year-1-plus-1ns", time.Time{}.Add(time.Nanosecond), time.Time{}},
+		{"before-epoch", time.Date(1969, 12, 31, 23, 59, 59, 0, time.UTC), time.Date(1901, 12, 13, 20, 45, 51, 0, time.UTC)},
 	}
 	type maker struct {
 		kind string
